@@ -8,7 +8,7 @@
    references added by Element.__escaped_text and Attribute.__unicode__, and
    PrefixNormalizer.refitValue).  `xml_chardata_decode` / `xml_attvalue_decode`
    are the XML 1.0 rules an independent parser applies (None = not well-formed). *)
-From SV Require Import Lib.Base Gen.C04Tables C04.Model C04.EncProofs C04.ReplyProofs C04.TreeProofs C04.Bounded.
+From SV Require Import Lib.Base Gen.C04Tables C04.Model C04.EncProofs C04.DecodeProofs C04.ReplyProofs C04.TreeProofs C04.Bounded.
 Local Open Scope N_scope.
 
 (* ------------------------------------------------------------------ *)
@@ -85,6 +85,18 @@ Theorem escape_once : forall t,
 Proof. exact escape_idempotent_l. Qed.
 Print Assumptions escape_once.
 
+(* Encoder.decode undoes Encoder.encode, Text.unescape undoes Text.escape -
+   on every string without an entity reference (with one, "&lt;" comes back as "<") *)
+Theorem decode_encode_partial : forall s,
+  has_entity_ref s = false -> decode (encode s) = s.
+Proof. exact decode_encode_partial_l. Qed.
+Print Assumptions decode_encode_partial.
+
+Theorem unescape_escape : forall s,
+  has_entity_ref s = false -> t_chars (text_unescape (text_escape (mkText s false))) = s.
+Proof. exact unescape_escape_l. Qed.
+Print Assumptions unescape_escape.
+
 Example request_nonvacuous :
   let s := [97; 60; 98; 38; 13; 93; 93; 62] in          (* a<b& CR ]]> *)
   chars_legal s = true /\ has_entity_ref s = false /\ qname_rewritten [] [] s = false /\
@@ -102,6 +114,13 @@ Theorem text_roundtrip_bounded : forall s,
   text_survives s = negb (has_entity_ref s).
 Proof. exact text_roundtrip_bounded_l. Qed.
 Print Assumptions text_roundtrip_bounded.
+
+(* length <= 4, same alphabet: decode(encode s) = s EXACTLY when s has no entity reference *)
+Theorem decode_encode_bounded : forall s,
+  (length s <= 4)%nat -> (forall c, In c s -> In c alphabet_text) ->
+  decode_undoes_encode s = negb (has_entity_ref s).
+Proof. exact decode_encode_bounded_l. Qed.
+Print Assumptions decode_encode_bounded.
 
 (* every string of length <= 5 over  p : & ; l t < TAB LF CR quot  (p a bound prefix) *)
 Theorem attr_roundtrip_bounded : forall s,
@@ -171,6 +190,14 @@ Theorem tree_reparse_pretty : forall t i,
   tree_ok t = true -> handler (events_pretty i t) = Some (reread_gen true t).
 Proof. exact tree_reparse_pretty_l. Qed.
 Print Assumptions tree_reparse_pretty.
+
+(* ... and that is the tree that was serialised: same names, attribute values,
+   leaf text exactly, text of elements with children up to surrounding whitespace,
+   for both serialisers and any indentation *)
+Theorem tree_roundtrip : forall pr i t,
+  tree_ok t = true -> option_map canon (handler (events pr i t)) = Some (canon t).
+Proof. exact tree_roundtrip_l. Qed.
+Print Assumptions tree_roundtrip.
 
 (* both serialisers are read back alike (an empty Text counts as no text) *)
 Theorem pretty_plain_same : forall t,
